@@ -312,7 +312,7 @@ fn etype(ty: &str) -> ExchangeType {
 
 /// run one operation; returns (op with observed tags filled in, methods on the op's channel
 /// or None if it panicked having sent nothing, anything on another channel, call failed)
-pub fn run_op(sess: &mut Session, mut op: Op) -> Option<(Op, Option<Vec<(u64, u64, Vec<FV>)>>, bool, bool)> {
+pub fn run_op(sess: &mut Session, mut op: Op) -> Option<(Op, Option<Vec<((u64, u64, Vec<FV>), Vec<u8>)>>, bool, bool)> {
     let ch = sess.conn.open_channel(None).ok()?;
     let ch_other = sess.conn.open_channel(None).ok()?;
     let mut target = ch.channel_id();
@@ -479,7 +479,7 @@ pub fn run_op(sess: &mut Session, mut op: Op) -> Option<(Op, Option<Vec<(u64, u6
     let mut other_ch = false;
     for f in &frames[base.min(end)..end] {
         if f.ty == 1 && f.ch == target && f.end_ok {
-            on_target.push(parse_raw_method(&f.payload));
+            on_target.push((parse_raw_method(&f.payload), f.payload.clone()));
         } else if f.ty != 8 {
             other_ch = true;
         }
@@ -497,7 +497,7 @@ pub fn run_op(sess: &mut Session, mut op: Op) -> Option<(Op, Option<Vec<(u64, u6
 }
 
 /// operations that go through Queue / Exchange wrapper objects or consume the channel
-pub fn run_op_wrapped(sess: &mut Session, op: Op) -> Option<(Op, Option<Vec<(u64, u64, Vec<FV>)>>, bool, bool)> {
+pub fn run_op_wrapped(sess: &mut Session, op: Op) -> Option<(Op, Option<Vec<((u64, u64, Vec<FV>), Vec<u8>)>>, bool, bool)> {
     let ch = sess.conn.open_channel(None).ok()?;
     let target = ch.channel_id();
     let mut failed = false;
@@ -589,7 +589,7 @@ pub fn run_op_wrapped(sess: &mut Session, op: Op) -> Option<(Op, Option<Vec<(u64
     let mut other_ch = false;
     for f in &frames[start.min(end)..end] {
         if f.ty == 1 && f.ch == target && f.end_ok {
-            on_target.push(parse_raw_method(&f.payload));
+            on_target.push((parse_raw_method(&f.payload), f.payload.clone()));
         } else if f.ty != 8 {
             other_ch = true;
         }
@@ -652,12 +652,17 @@ fn is_wrapped(op: &Op) -> bool {
 
 pub fn run(a: &Args) {
     let mut sink = CaseSink::new("C12", "C12", &a.out, 100);
+    // the argument tables of the pool as the client's library encodes them (without the length)
+    sink.prelude = format!(
+        "Definition pool_tables : list (N * bytes) := {}.",
+        coqfmt::list(&[0u64, 1, 2], |id| format!("({}, {})", id, coqfmt::bytes(&table_bytes(*id)[4..])))
+    );
     let mut rng = Rng::new(a.seed ^ 0xC12);
     let mut sess = match Session::open() {
         Some(s) => s,
         None => {
             sink.count("session_failed");
-            sink.push_line("(AAckAll, Some [], false, true)".into(), true, "session".into());
+            sink.push_line("(AAckAll, Some [], false, true, [], pool_tables)".into(), true, "session".into());
             sink.finish("");
             return;
         }
@@ -701,12 +706,15 @@ pub fn run(a: &Args) {
                 if obs.is_none() {
                     sink.count("panicked");
                 }
+                // the raw payloads go to Coq as well: the reading of record is Model/Method.v's
+                let raws: Vec<Vec<u8>> = obs.as_ref().map(|ms| ms.iter().map(|x| x.1.clone()).collect()).unwrap_or_default();
                 let term = format!(
-                    "({}, {}, {}, {})",
+                    "({}, {}, {}, {}, {}, pool_tables)",
                     op_coq(&op2),
-                    coqfmt::opt(&obs, |ms| coqfmt::list(ms, meth_coq)),
+                    coqfmt::opt(&obs, |ms| coqfmt::list(ms, |x| meth_coq(&x.0))),
                     coqfmt::b(other),
-                    coqfmt::b(failed)
+                    coqfmt::b(failed),
+                    coqfmt::list(&raws, |p| coqfmt::bytes(p))
                 );
                 sink.push_line(term, true, line);
             }
